@@ -49,18 +49,28 @@ static void on_apply(frg::string_view v, void *ctx) {
 	for(size_t i = 0; i < v.size(); i++) sink = sink + v[i];    // the target may read every byte of its view
 }
 
-// Options built by the real helpers of cmdline.hpp: each gets its own exact-size heap target with canaries around
-// the fields ("the callbacks write only through the option's target").
+// Options built by the real helpers of cmdline.hpp: each target object lives in its own heap block of exactly
+// sizeof(target) bytes, so a callback writing more than its target is an ASan report
+// ("the callbacks write only through the option's target").
 struct Target {
-	uint64_t c0; bool b; uint64_t c1; frg::string_view v; uint64_t c2; int32_t i32; uint64_t c3; uint8_t u8; uint64_t c4;
-	int64_t i64; uint64_t c5; uint16_t u16; uint64_t c6;
+	bool *b = nullptr; frg::string_view *v = nullptr; int32_t *i32 = nullptr; uint8_t *u8 = nullptr;
+	int64_t *i64 = nullptr; uint16_t *u16 = nullptr;
+	void release() { ::free(b); ::free(v); ::free(i32); ::free(u8); ::free(i64); ::free(u16); }
 };
-static const uint64_t CAN = 0x5AFEC0DE5AFEC0DEull;
+template<typename T> static T *exact_obj(T init) { T *p = (T *)::malloc(sizeof(T)); new (p) T(init); return p; }
 static Target *new_target(const std::string &kind) {
-	Target *t = (Target *)::malloc(sizeof(Target));
-	t->c0 = t->c1 = t->c2 = t->c3 = t->c4 = t->c5 = t->c6 = CAN;
-	t->b = kind == "F"; new (&t->v) frg::string_view{}; t->i32 = 7; t->u8 = 7; t->i64 = 7; t->u16 = 7;
+	Target *t = new Target;
+	if(kind == "T" || kind == "F") t->b = exact_obj<bool>(kind == "F");
+	else if(kind == "V") t->v = exact_obj<frg::string_view>(frg::string_view{});
+	else if(kind == "i32") t->i32 = exact_obj<int32_t>(7);
+	else if(kind == "u8") t->u8 = exact_obj<uint8_t>(7);
+	else if(kind == "u16") t->u16 = exact_obj<uint16_t>(7);
+	else t->i64 = exact_obj<int64_t>(7);
 	return t;
+}
+static void free_targets(std::vector<std::pair<std::string, Target *>> &ts) {
+	for(auto &t : ts) if(t.second) { t.second->release(); delete t.second; }
+	ts.clear();
 }
 
 static void body(const vh::Lines &ls) {
@@ -80,13 +90,13 @@ static void body(const vh::Lines &ls) {
 			const std::string &k = t[2];
 			Target *tg = new_target(k);
 			frg::string_view name{nb.p, nb.n};
-			if(k == "T") opts.push_back(frg::option{name, frg::store_true(tg->b)});
-			else if(k == "F") opts.push_back(frg::option{name, frg::store_false(tg->b)});
-			else if(k == "V") opts.push_back(frg::option{name, frg::as_string_view(tg->v)});
-			else if(k == "i32") opts.push_back(frg::option{name, frg::as_number(tg->i32)});
-			else if(k == "u8") opts.push_back(frg::option{name, frg::as_number(tg->u8)});
-			else if(k == "u16") opts.push_back(frg::option{name, frg::as_number(tg->u16)});
-			else opts.push_back(frg::option{name, frg::as_number(tg->i64)});
+			if(k == "T") opts.push_back(frg::option{name, frg::store_true(*tg->b)});
+			else if(k == "F") opts.push_back(frg::option{name, frg::store_false(*tg->b)});
+			else if(k == "V") opts.push_back(frg::option{name, frg::as_string_view(*tg->v)});
+			else if(k == "i32") opts.push_back(frg::option{name, frg::as_number(*tg->i32)});
+			else if(k == "u8") opts.push_back(frg::option{name, frg::as_number(*tg->u8)});
+			else if(k == "u16") opts.push_back(frg::option{name, frg::as_number(*tg->u16)});
+			else opts.push_back(frg::option{name, frg::as_number(*tg->i64)});
 			targets.push_back({k, tg});
 		} else if(t[0] == "parse" || t[0] == "parsenull") {
 			g_null_cl = t[0] == "parsenull";
@@ -94,29 +104,27 @@ static void body(const vh::Lines &ls) {
 			fflush(stdout);
 			try {
 				frg::parse_arguments(g_null_cl ? frg::string_view{} : frg::string_view{g_cl.p, g_cl.n}, std::span<frg::option>(opts));
-			} catch(...) { for(auto c : ctxs) delete c; for(auto &t : targets) ::free(t.second); throw; }
+			} catch(...) { for(auto c : ctxs) delete c; free_targets(targets); throw; }
 			printf("ok\n");
 			for(size_t i = 0; i < targets.size(); i++) {
 				const std::string &k = targets[i].first; Target *tg = targets[i].second;
 				if(!tg) continue;
-				if(tg->c0 != CAN || tg->c1 != CAN || tg->c2 != CAN || tg->c3 != CAN || tg->c4 != CAN || tg->c5 != CAN || tg->c6 != CAN)
-					vh::oracle("oob", "option %zu (%s): a callback wrote outside its target field", i, k.c_str());
-				if(k == "T" || k == "F") printf("t %zu b %d\n", i, (int)tg->b);
+				if(k == "T" || k == "F") printf("t %zu b %d\n", i, (int)*tg->b);
 				else if(k == "V") {
-					if(!tg->v.data()) printf("t %zu v null\n", i);
-					else if(tg->v.data() < g_cl.p || tg->v.data() > g_cl.p + g_cl.n || tg->v.size() > (size_t)(g_cl.p + g_cl.n - tg->v.data())) {
+					if(!tg->v->data()) printf("t %zu v null\n", i);
+					else if(tg->v->data() < g_cl.p || tg->v->data() > g_cl.p + g_cl.n || tg->v->size() > (size_t)(g_cl.p + g_cl.n - tg->v->data())) {
 						vh::oracle("oob", "as_string_view target %zu holds a view outside the command line", i); printf("t %zu v outside\n", i); }
-					else printf("t %zu v %zu %zu\n", i, (size_t)(tg->v.data() - g_cl.p), tg->v.size());
+					else printf("t %zu v %zu %zu\n", i, (size_t)(tg->v->data() - g_cl.p), tg->v->size());
 				}
-				else if(k == "i32") printf("t %zu n %lld\n", i, (long long)tg->i32);
-				else if(k == "u8") printf("t %zu n %lld\n", i, (long long)tg->u8);
-				else if(k == "u16") printf("t %zu n %lld\n", i, (long long)tg->u16);
-				else printf("t %zu n %lld\n", i, (long long)tg->i64);
+				else if(k == "i32") printf("t %zu n %lld\n", i, (long long)*tg->i32);
+				else if(k == "u8") printf("t %zu n %lld\n", i, (long long)*tg->u8);
+				else if(k == "u16") printf("t %zu n %lld\n", i, (long long)*tg->u16);
+				else printf("t %zu n %lld\n", i, (long long)*tg->i64);
 			}
 		}
 	}
 	for(auto c : ctxs) delete c;
-	for(auto &t : targets) ::free(t.second);
+	free_targets(targets);
 }
 
 int main() { return vh::run(body); }
